@@ -30,23 +30,26 @@ static FWire c04(Reader& r,FReader& f) {
     const Sensors electrodes((d+"eeg.txt").c_str());
     const Sensors squids((d+"meg.txt").c_str());
 
+    int stage = 0;      // which computation was in flight when something threw (reported as status 10+stage)
+    try {
+    stage = 1;
     const SymMatrix HM = HeadMat(geo);
-    const Matrix SM = DipSourceMat(geo,dipoles,"");
-    const SparseMatrix H2E = Head2EEGMat(geo,electrodes);
-    const Matrix H2M = Head2MEGMat(geo,squids);
-    const Matrix S2M = DipSource2MEGMat(dipoles,squids);
-    const SymMatrix HMi = HM.inverse();
+    stage = 2; const Matrix SM = DipSourceMat(geo,dipoles,"");
+    stage = 3; const SparseMatrix H2E = Head2EEGMat(geo,electrodes);
+    stage = 4; const Matrix H2M = Head2MEGMat(geo,squids);
+    stage = 5; const Matrix S2M = DipSource2MEGMat(dipoles,squids);
+    stage = 6; const SymMatrix HMi = HM.inverse();
 
-    const GainEEG g1(HMi,SM,H2E);
-    const GainEEGadjoint g2(geo,dipoles,HM,H2E);
-    const GainMEG g4(HMi,SM,H2M,S2M);
-    const GainMEGadjoint g5(geo,dipoles,HM,H2M,S2M);
+    stage = 7; const GainEEG g1(HMi,SM,H2E);
+    stage = 8; const GainEEGadjoint g2(geo,dipoles,HM,H2E);
+    stage = 9; const GainMEG g4(HMi,SM,H2M,S2M);
+    stage = 10; const GainMEGadjoint g5(geo,dipoles,HM,H2M,S2M);
     // GainEEGMEGadjoint keeps its lead fields private (reached with #define private public around gain.h only)
-    const GainEEGMEGadjoint g36(geo,dipoles,HM,H2E,H2M,S2M);
+    stage = 11; const GainEEGMEGadjoint g36(geo,dipoles,HM,H2E,H2M,S2M);
     const Matrix& g3 = g36.EEGleadfield; const Matrix& g6 = g36.MEGleadfield;
 
     // condition number of the head matrix (2-norm, SVD)
-    Matrix U,V; SparseMatrix Sg; Matrix(HM).svd(U,Sg,V,false);
+    stage = 12; Matrix U,V; SparseMatrix Sg; Matrix(HM).svd(U,Sg,V,false);
     double smax=0, smin=1e300; for (size_t i=0;i<HM.nlin();++i) { const double s=Sg(i,i); if (s>smax) smax=s; if (s<smin) smin=s; }
 
     FWire o; o.z = Wire{ST_OK,(ll)HM.nlin(),(ll)nd,(ll)H2E.nlin(),(ll)H2M.nlin()};
@@ -54,6 +57,7 @@ static FWire c04(Reader& r,FReader& f) {
     put(o.f,g1); put(o.f,g2); put(o.f,g3); put(o.f,g4); put(o.f,g5); put(o.f,g6);
     put(o.f,Matrix(HM)); put(o.f,SM); put(o.f,Matrix(H2E)); put(o.f,H2M); put(o.f,S2M);
     return o;
+    } catch (...) { return FWire{Wire{10+stage},{}}; }
 }
 
 int main(int argc,char** argv) {
